@@ -152,6 +152,32 @@ class TempReturn(ast.NodeTransformer):
     visit_AsyncFunctionDef = visit_FunctionDef
 
 
+class CounterAssign(ast.NodeTransformer):
+    """`k += c` -> `k = k + c` for Python counters (names that the function binds to an integer literal somewhere; a tensor's
+    in-place `+=` is NOT rewritten: it differs from rebinding in aliasing)."""
+
+    def visit_FunctionDef(self, node):
+        self.generic_visit(node)
+        ints = set()
+        for st in ast.walk(node):
+            if isinstance(st, ast.Assign) and isinstance(st.value, ast.Constant) and isinstance(st.value.value, int) and not isinstance(st.value.value, bool):
+                for t in st.targets:
+                    if isinstance(t, ast.Name):
+                        ints.add(t.id)
+
+        class _R(ast.NodeTransformer):
+            def visit_AugAssign(self, n):
+                if isinstance(n.target, ast.Name) and n.target.id in ints and isinstance(n.op, (ast.Add, ast.Sub)) and isinstance(n.value, ast.Constant) and isinstance(n.value.value, int):
+                    return ast.Assign(targets=[ast.Name(id=n.target.id, ctx=ast.Store())], value=ast.BinOp(left=ast.Name(id=n.target.id, ctx=ast.Load()), op=n.op, right=n.value))
+                return n
+
+            def visit_FunctionDef(self, n):
+                return n if n is not node else self.generic_visit(n)
+        return _R().visit(node)
+
+    visit_AsyncFunctionDef = visit_FunctionDef
+
+
 class Yoda(ast.NodeTransformer):
     MIRROR = {ast.Lt: ast.Gt, ast.Gt: ast.Lt, ast.LtE: ast.GtE, ast.GtE: ast.LtE, ast.Eq: ast.Eq, ast.NotEq: ast.NotEq}
 
@@ -202,7 +228,7 @@ class TorchFn(ast.NodeTransformer):
         return node
 
 
-TRANSFORMS = {"demorgan": DeMorgan, "ifswap": IfSwap, "torchfn": TorchFn, "rename": Renamer, "size": SizeCall, "shape": ShapeIndex, "yoda": Yoda, "commute": Commute, "dimkw": DimKw, "unelse": UnElse, "tempret": TempReturn, "format": None}
+TRANSFORMS = {"demorgan": DeMorgan, "ifswap": IfSwap, "torchfn": TorchFn, "rename": Renamer, "size": SizeCall, "shape": ShapeIndex, "yoda": Yoda, "commute": Commute, "dimkw": DimKw, "unelse": UnElse, "tempret": TempReturn, "counter": CounterAssign, "format": None}
 
 
 
@@ -236,7 +262,7 @@ def build(root: str, kind: str):
     return ov
 
 
-def run_equivalences(ctx, kinds=("rename", "yoda", "dimkw", "commute", "size", "tempret", "unelse", "demorgan", "ifswap", "torchfn")):
+def run_equivalences(ctx, kinds=("rename", "yoda", "dimkw", "commute", "size", "tempret", "unelse", "demorgan", "ifswap", "torchfn", "counter")):
     """thorough tier: the rule module must report exactly the same failing (rule, construct) pairs on each rewritten repo"""
     from ..core import Ctx
     from ..model import AnalysisError, Repo
